@@ -11,6 +11,10 @@ CORPUS = [
     ("(str 12)", "(s e282ac61c3a9)", False, 1),
     ("(set (r (tag i c 0 real)) (r enum))", "(seq (real -3 2 128) (i -32769))", False, 0),   # D13 SET order, indefinite
     ("(choice (r (str 4)) (r (seqof int)))", "(ch 1 (of))", False, 0),                      # D14 empty indefinite alternative
+    # T14 CHOICE {a:1} == CHOICE {b:1}: a non-default member was left out
+    ("(seq (d (ch 0 (i 1)) (choice (r int) (r (tag i c 1 int)))))", "(seq (ch 1 (i 1)))", True, 0),
+    ("(seq (d (ch 1 (ch 1 (bits -))) (tag e c 0 (choice (r (setof enum)) (r (choice (r (tag e c 0 enum)) (r (tag i c 1 bits)) (r bool)))))))",
+     "(seq (ch 0 (of)))", False, 0),
 ]
 
 
